@@ -148,6 +148,12 @@ func (r *replaceArraystrategy) evaluate(m *MethodEvaluator) error {
 		return err
 	}
 
+	if len(evaluatedArgs) == 0 {
+		m.parser.SetLastEvaluatedT(m.evaluatedObjectT)
+
+		return nil
+	}
+
 	newArrayT := evaluatedArgs[0]
 	newArrayT.SetBeforeEvaluateCode(m.evaluatedObjectT.GetBeforeEvaluateCode())
 
@@ -246,6 +252,12 @@ func (a *addArrayStrategy) evaluate(m *MethodEvaluator) error {
 	err = checkAndPropagateArgs(m, "Array", methodT, evaluatedArgs)
 	if err != nil {
 		return err
+	}
+
+	if len(evaluatedArgs) == 0 {
+		m.parser.SetLastEvaluatedT(m.evaluatedObjectT)
+
+		return nil
 	}
 
 	arrayT := m.evaluatedObjectT
